@@ -25,6 +25,7 @@ def run(ctx):
     G.rule_F7a(ctx, [ctx.prog.func(q) for q in ENTRY])
     M.rule_F7h_tempo(ctx)
     X.rule_no_order_read_before_sort(ctx)
+    X.rule_first_track_tempo(ctx)
     M.rule_clock_agreement(ctx)
     M.rule_F10(ctx, "partitura.io.exportmidi:save_performance_midi", "ppq", 7)
     M.rule_note_pairing(ctx)
